@@ -291,14 +291,17 @@ impl<R: Round> Context<R> {
             // the integral digits of x end up in the exponent s and don't contribute to the
             // precision of the remainder r, so they have to be added to the working precision
             let int_digits = (x.exponent + x.digits_ub() as isize).max(0) as usize;
-            work_precision = self.precision + series_guard_digits + pow_guard_digits + int_digits;
+
+            // here n is roughly equal to sqrt(self.precision). The final powering by Bⁿ amplifies
+            // the relative error of the series sum by Bⁿ, so n more digits are required as well.
+            let n = 1usize << (self.precision.bit_len() / 2);
+            work_precision =
+                self.precision + series_guard_digits + pow_guard_digits + int_digits + n;
             let context = Context::<R>::new(work_precision);
             let x = FBig::new(context.repr_round_ref(x).value(), context);
             let logb = context.ln_base::<B>();
             let (s, r) = x.div_rem_euclid(logb);
 
-            // here m is roughly equal to sqrt(self.precision)
-            let n = 1usize << (self.precision.bit_len() / 2);
             let s: isize = s.try_into().expect("exponent is too large");
             (s, n, r)
         };
